@@ -41,11 +41,13 @@ def parse_query(src, wire="ast"):
     return a
 
 
-def translate_source(src, backend, outdir, wire="ast", exe=None, twice=False):
+def translate_source(src, backend, outdir, wire="ast", exe=None, twice=False, rewrite=False):
     """Translate one query given as Python source text.  Returns a plain dict:
     outcome ok/raise, exception class, files written (name, mode), descriptor.
     twice: the same query OBJECT is translated once before (into a scratch directory); what is
-    reported is its second translation."""
+    reported is its second translation.
+    rewrite: the transformed tree (apply_ast_transformations once) is written to a scratch directory first and then
+    written again: what is reported is the second package made from the SAME transformed tree."""
     os.makedirs(outdir, exist_ok=True)
     h = _WarnCatcher()
     root = logging.getLogger()
@@ -63,7 +65,16 @@ def translate_source(src, backend, outdir, wire="ast", exe=None, twice=False):
                 exe.write_cpp_files(exe.apply_ast_transformations(a), Path(first))
             finally:
                 shutil.rmtree(first, ignore_errors=True)
+            h.msgs = []     # the warnings reported are those of the second translation
         a2 = exe.apply_ast_transformations(a)
+        if rewrite:
+            import tempfile
+            first = tempfile.mkdtemp(prefix="verif.rewrite.")
+            try:
+                exe.write_cpp_files(a2, Path(first))
+            finally:
+                shutil.rmtree(first, ignore_errors=True)
+            h.msgs = []     # the warnings reported are those of the second writing
         info = exe.write_cpp_files(a2, Path(outdir))
         res["treename"] = str(getattr(info.result_rep, "treename", ""))
         res["filename"] = str(getattr(info.result_rep, "filename", ""))
